@@ -2657,7 +2657,7 @@ def run(ctx):
     for ops in dropped_link_histories():
         go('buses-and-dropped-links', ops)
 
-    n = ctx.scale(quick=330, thorough=9000)
+    n = ctx.scale(quick=300, thorough=9000)
     for k in range(n):
         ln = ctx.rng.choice([8, 12, 20, 30, 45, 60])
         go('histories-random', random_history(ctx.rng, ln))
